@@ -431,6 +431,13 @@ def main(argv):
                 cid = "%s.%d" % (name, k)
                 ulines.append("%s %d %d U 1 %s - %s 2" % (cid, rng.below(1 << 31), [0, 3, 1][k % 3], g, inj))
                 umeta[cid] = (name, hc, ho)
+        # directed at the window "target's decrement between the condition releaser's fetch_sub and its _established
+        # store" (the driver makes check_established() a scheduling point): condition holds, both released right after
+        # the activation, close to each other
+        for k in range(nu):
+            cid = "u11d.%d" % k
+            ulines.append("%s %d %d U 1 -:1?0:2 - 0=1@%d|1=7@%d 2" % (cid, rng.below(1 << 31), [3, 0][k % 2], 2 + k % 5, 2 + (k // 5) % 5))
+            umeta[cid] = ("u11", "1", "1")
     chk.log("%d graph cases, %d unit cases, %d cases where run() races an external release" % (len(lines), len(ulines), len(xlines)))
     impl_out = chk.run_cases(impl, lines + ulines, timeout=900) if impl else {}
     if impl and xlines:
